@@ -103,3 +103,32 @@ Theorem C07_later_packets_processed : forall beh hs1 hs2 n s log,
   if alive then run beh (n + Z.of_nat (length hs1)) hs2 s1 log1 else (s1, log1, false).
 Proof. exact run_app. Qed.
 Print Assumptions C07_later_packets_processed.
+
+(* ---- Caller (cflib/utils/callbacks.py), used for packet_received *)
+(* add_callback never creates a duplicate: a registered callback is left alone, a new one is appended *)
+Theorem C07_caller_add_without_duplicates : forall s c,
+  let s' := fst (run_op s (AddAll c)) in
+  snd (run_op s (AddAll c)) = false /\ cbs s' = cbs s /\ In c (alls s') /\
+  (In c (alls s) -> alls s' = alls s) /\ (~ In c (alls s) -> alls s' = alls s ++ [c]) /\
+  (NoDup (alls s) -> NoDup (alls s')).
+Proof. exact caller_add. Qed.
+Print Assumptions C07_caller_add_without_duplicates.
+
+(* remove_callback raises (ValueError, nothing changed) exactly when the callback is absent *)
+Theorem C07_caller_remove : forall s c,
+  (snd (run_op s (RemAll c)) = true <-> ~ In c (alls s)) /\
+  (~ In c (alls s) -> fst (run_op s (RemAll c)) = s) /\
+  (In c (alls s) -> cbs (fst (run_op s (RemAll c))) = cbs s /\
+                    alls (fst (run_op s (RemAll c))) = remove_first_z c (alls s)).
+Proof. exact caller_remove. Qed.
+Print Assumptions C07_caller_remove.
+
+(* call iterates over a copy: the callbacks present when the call starts are invoked once each, in order,
+   whatever they do to the Caller meanwhile (remove themselves — as _check_for_initial_packet_cb does —,
+   remove or add others); only an escaping exception cuts the call short *)
+Theorem C07_caller_call_over_copy : forall beh n snap s log s1 log1 alive,
+  call_all beh n snap s log = (s1, log1, alive) ->
+  (alive = true -> log1 = all_entries n snap ++ log) /\
+  (alive = false -> exists k, (k < length snap)%nat /\ log1 = all_entries n (firstn (S k) snap) ++ log).
+Proof. exact caller_call_over_copy. Qed.
+Print Assumptions C07_caller_call_over_copy.
